@@ -82,12 +82,12 @@ theorem C17_wf_noSerialization {l : Level} {p : OType} (hok : TypeOK (l :: p)) (
 
 /-! ### every definition the declared schema admits is accepted -/
 
-/-- a well-formed definition, in the model's terms: attributes well-formed on their own and not clashing with an
-    inherited member; equality names are (own or inherited) attributes that are not constants and not already part of
+/-- a well-formed definition, in the model's terms: attributes well-formed on their own, each a fresh name or a proper
+    override of an inherited attribute; equality names are (own or inherited) attributes that are not constants and not already part of
     an inherited equality; serialization names are attributes with a position, required never after optional -/
 structure WellFormedDef (env : List OType) (d : Def) : Prop where
   attrs : ∀ a ∈ d.attrs, AttrDeclOK a
-  fresh : ∀ a ∈ d.attrs, findAttr (parentOf env d) a.name = none
+  override : ∀ a ∈ d.attrs, OverrideOK (parentOf env d) a
   equality : ∀ as, defineAttrs (parentOf env d) d.attrs = .ok as → ∀ n ∈ d.equality.toList?.getD [],
     ∃ a, lookupMember as (parentOf env d) n = some a ∧ a.kind ≠ .constant ∧ n ∉ equalityAttributes (parentOf env d)
   serialization : ∀ as, defineAttrs (parentOf env d) d.attrs = .ok as → ∀ ser, d.serialization = some ser →
@@ -98,7 +98,7 @@ structure WellFormedDef (env : List OType) (d : Def) : Prop where
     text / init-hash of such a definition is an instance of the Struct `TypeObjectInitHash` (checked by the
     correspondence run, predicate class `schema-admitted-rejected`). -/
 theorem C17_schema {env : List OType} {d : Def} (h : WellFormedDef env d) : ∃ t, define env d = .ok t := by
-  obtain ⟨as, has⟩ := defineAttrs_succeeds h.attrs h.fresh
+  obtain ⟨as, has⟩ := defineAttrs_succeeds h.attrs h.override
   have heq := checkEquality_succeeds (h.equality as has)
   have hser : checkSerialization as (parentOf env d) false (d.serialization.getD []) = .ok () := by
     rcases Option.eq_none_or_eq_some d.serialization with hs | ⟨ser, hs⟩
@@ -399,7 +399,12 @@ def sampleDefs : List Def := [
     equality := .absent, includeType := some false, serialization := none },
   { parent := some 1,
     attrs := [{ name := "c", ty := .bool, kind := .reference, dflt := some (.bool true) }],
-    equality := .one "c", includeType := none, serialization := some ["a", "c", "b", "g"] }]
+    equality := .one "c", includeType := none, serialization := some ["a", "c", "b", "g"] },
+  -- a sibling that overrides the inherited required `a` to give it a default
+  { parent := some 0,
+    attrs := [{ name := "z", ty := .str, kind := .normal, dflt := none },
+              { name := "a", ty := .int, kind := .normal, dflt := some (.int 3), override := true }],
+    equality := .absent, includeType := none, serialization := none }]
 
 def sampleEnv : List OType :=
   match defineAll [] sampleDefs with
@@ -408,22 +413,32 @@ def sampleEnv : List OType :=
 
 def sampleT0 : OType := (sampleEnv[0]?).getD []
 def sampleT2 : OType := (sampleEnv[2]?).getD []
+def sampleT3 : OType := (sampleEnv[3]?).getD []
 
 example : defineAll [] sampleDefs = .ok sampleEnv := rfl
-example : sampleEnv.length = 3 ∧ sampleT2.length = 3 := ⟨rfl, rfl⟩
+example : sampleEnv.length = 4 ∧ sampleT2.length = 3 := ⟨rfl, rfl⟩
 example : (posAttrs sampleT2).map (·.name) = ["a", "c", "b", "g"] ∧ requiredCount sampleT2 = 1 := ⟨rfl, rfl⟩
 
 theorem sampleShape : ∀ d ∈ sampleDefs, DefShape d := by
   intro d hd
   simp only [sampleDefs, List.mem_cons, List.not_mem_nil, or_false] at hd
-  rcases hd with rfl | rfl | rfl
+  rcases hd with rfl | rfl | rfl | rfl
   · exact ⟨by decide, by intro ser h; cases h⟩
   · exact ⟨by decide, by intro ser h; cases h⟩
   · exact ⟨by decide, by intro ser h; cases h; decide⟩
+  · exact ⟨by decide, by intro ser h; cases h⟩
 
 theorem sampleWF : WF sampleT2 :=
   (C17_wf_env (env0 := []) (by simp) sampleShape (rfl : defineAll [] sampleDefs = .ok sampleEnv) sampleT2
     (by decide)).2
+
+/-- an overriding attribute takes the place of the one it overrides (one position, now optional) -/
+theorem sampleWF3 : WF sampleT3 :=
+  (C17_wf_env (env0 := []) (by simp) sampleShape (rfl : defineAll [] sampleDefs = .ok sampleEnv) sampleT3
+    (by decide)).2
+example : (posAttrs sampleT3).map (·.name) = ["z", "a"] ∧ requiredCount sampleT3 = 1 := ⟨rfl, rfl⟩
+example : get { typ := sampleT3, values := [.str "x"] } "a" = .ok (some (.int 3)) :=
+  C17_get (i := 1) sampleWF3 (rfl : newPos sampleT3 [.str "x"] = .ok _) rfl
 
 /-- hypotheses of `C17_get` / `C17_pos_named` hold; the conclusions, instantiated: an omitted trailing attribute reads back
     its default, a given_or_derived one `undef`, the constant its value -/
@@ -452,7 +467,9 @@ example : WellFormedDef [] (sampleDefs.headD default) := by
   · intro a ha
     simp only [sampleDefs, List.headD_cons, List.mem_cons, List.not_mem_nil, or_false] at ha
     rcases ha with rfl | rfl <;> simp [AttrDeclOK, inst]
-  · intro a _; rfl
+  · intro a ha
+    simp only [sampleDefs, List.headD_cons, List.mem_cons, List.not_mem_nil, or_false] at ha
+    rcases ha with rfl | rfl <;> simp [OverrideOK, parentOf, findAttr, sampleDefs]
   · intro as has n hn
     have : as = [{ name := "a", ty := .int, kind := .normal, value := none },
                  { name := "k", ty := .int, kind := .constant, value := some (.int 7) }] := by
